@@ -275,6 +275,18 @@ one header frame per pair, then one data frame per `Read` of the consumer. The i
 def messageFrames (mt : UInt8) (id : Bytes) (hdrs : List (Bytes × Bytes)) (reads : List ReadRes) : List Frame :=
   hdrs.map (fun kv => Frame.header mt (id.take 8) kv.1 kv.2) ++ (bodyRun mt (id.take 8) 0 reads).2
 
+/-- A logged message as `marbl.Modifier` logs it: under the ID of the martian context of its exchange
+(`ctx.ID()`, allocated by the proxy: `newSession` per connection, `withSession` per exchange). A frame keeps
+`id[:8]` only, so on the reading side a message is known by `key`. -/
+structure LoggedMsg where
+  mt : UInt8
+  id : Bytes
+  hdrs : List (Bytes × Bytes)
+  reads : List ReadRes
+
+def LoggedMsg.key (m : LoggedMsg) : Bytes × UInt8 := (m.id.take 8, m.mt)
+def LoggedMsg.frames (m : LoggedMsg) : List Frame := messageFrames m.mt m.id m.hdrs m.reads
+
 /-- `LogRequest` as it is now (commit "marbl does not wrap http.NoBody"): when `req.Body == http.NoBody`
 the body is left alone and `sendData(id, Request, 0, true, nil, 0)` is sent at once — the frame a
 single read of the empty body to EOF would have produced; later reads of `http.NoBody` by the
